@@ -90,10 +90,10 @@ PROPS["C05"] = dict(
 
 PROPS["C06"] = dict(
     bounds="arbitrary builder state (lazy initialisation); every fee, size and amount over its full machine range; every address and credential kind for input recording; 8 reference-script sources",
-    assumptions=["fee functions themselves are C15's obligations, signer counting C18's; callees named in each obligation are stubs with arbitrary results",
+    assumptions=["fee functions themselves are C15's obligations; signer counting and the sized (fake) transaction are decided by C18's obligations, which this check runs as well; callees named in each obligation are stubs with arbitrary results",
                  "claim is for transactions released through build_tx; the iterative fee/change fixed point in add_change_if_needed is not executed (a wrong estimate is caught by validate_fee)"],
     e1=[],
-    e2=["c06", "c05"],
+    e2=["c06", "c05", "c18"],        # the minimum fee rests on the signer count and the sized transaction: C18's obligations are part of this check
 )
 PROPS["C05"]["e2"] = ["c05", "c20", "c06"]
 
